@@ -7,7 +7,6 @@ def cfgDefaultSendDelay : Int := 2000000000
 def cfgDefaultSendTicker : Int := 100000000
 def cfgDefaultSpanLimit : Int := 32000
 def cfgDefaultTraceTimeout : Int := 60000000000
-def descendantCountBits : Int := 32
 def fallbackSendDelay : Int := 2000000000
 def fallbackTraceTimeout : Int := 60000000000
 def maxExpiredIntBits : Int := 64
